@@ -1432,6 +1432,17 @@ impl ProtocolState {
 
                 if let Err(error) = validate_packet_outbound_internal(packet, &validation_context) {
                     warn!("[{} ms] service_queue - {} operation {} failed last-chance validation", self.elapsed_time_ms, mqtt_packet_to_str(packet), current_operation_id);
+
+                    // an alias binding established by this resolution never reaches the server; forget the
+                    // resolver's bindings so that no later publish omits its topic on the strength of it
+                    if outbound_alias_resolution.alias.is_some() && !outbound_alias_resolution.skip_topic {
+                        let mut maximum_alias = 0;
+                        if let Some(settings) = &self.current_settings {
+                            maximum_alias = settings.topic_alias_maximum_to_server;
+                        }
+                        self.outbound_alias_resolver.borrow_mut().reset_for_new_connection(maximum_alias);
+                    }
+
                     self.current_operation = None;
                     self.complete_operation_as_failure(current_operation_id, error)?;
                     continue;
